@@ -60,6 +60,11 @@ def m_emit(interp, self, outputs, callee, inputs, attrs=None):
     fn = self.fields.get("_current_fn")
     if isinstance(fn, SObj) and "ghost_nodes" in fn.fields:
         fn.fields["ghost_nodes"].append(entry)
+    if not vals:
+        # the real _emit ends with `output_values[0]`: a node without outputs is refused by an IndexError
+        from pyvc.interp import PyRaise
+        log.nodes.pop()
+        raise PyRaise(IndexError("list index out of range"))
     return vals if len(vals) > 1 else vals[0]
 
 
@@ -96,8 +101,20 @@ def m_attr_int(interp, name, value, *a, **k):
     return t
 
 
+_INFO = []
+
+
+def real_info():
+    """A real sourceinfo.SourceInfo (source positions are not part of any obligation)."""
+    if not _INFO:
+        import ast as _ast
+        from onnxscript._internal import sourceinfo
+        _INFO.append(sourceinfo.SourceInfo(_ast.parse("x = 1").body[0], code="x = 1", function_name="f"))
+    return _INFO[0]
+
+
 def m_source_of(interp, self, node):
-    return Opaque("sourceinfo")
+    return real_info()
 
 
 def m_message(interp, self, node, msg):
@@ -121,7 +138,8 @@ def converter_models():
 def new_converter(interp):
     from onnxscript import opset18
     C = _conv_cls()
-    self = SObj(C, "converter")
+    # run the real __init__ so that every field the class initialises exists (robust against new fields)
+    self = interp.instantiate(C, [], {"opset": opset18, "global_names": {}, "source": None, "default_opset": opset18})
     interp.ctx.ghost["log"] = Log()
     fn = SObj(None, "current_fn", cands=None)
     from onnxscript._internal import irbuilder
